@@ -38,6 +38,10 @@ var (
 */
 func Decode(r io.Reader) p.DpFactory {
 	return func() (p.DataProvider, *p.ZogIssue) {
+		if r == nil {
+			// e.g. zhttp.Request on a request built without a body (http.NewRequest(method, url, nil))
+			return nil, &p.ZogIssue{Code: zconst.IssueCodeInvalidJSON, Err: errors.New("nil json body")}
+		}
 		closer, ok := r.(io.Closer)
 		if ok {
 			defer closer.Close()
